@@ -321,7 +321,7 @@ func runC07(c *Ctx) {
 				return true
 			}
 			s, ok := eng.Unparen(call.Fun).(*ast.SelectorExpr)
-			if !ok || eng.NameOf(s.Sel) != "Delete" || !eng.IsField(info, s.X, pmT+".dstore") {
+			if !ok || eng.NameOf(s.Sel) != "Delete" || !eng.IsField(info, exprAt(cf, cf.LocOf(call), s.X), pmT+".dstore") {
 				return true
 			}
 			dels++
